@@ -106,6 +106,8 @@ class RunBundler:
         self._sequence_counters: dict[Any, int] = dict()  # noqa: C408
         self._sequence_counters_copy: dict[Any, int] = dict()  # for if we redo data-points  # noqa: C408
         self._monitor_params: dict[Subscribable, tuple[Callback, dict]] = dict()  # noqa: C408  # cache of {obj: (cb, kwargs)}
+        # streams whose events are emitted asynchronously and never replayed after a rewind
+        self._unreplayed_stream_names: set[str] = {"interruptions"}
         # a cache of stream_resource uid to the data_keys that stream_resource collects for
         self._stream_resource_data_keys: dict[str, Iterable[str]] = dict()  # noqa: C408
         self.run_is_open = False
@@ -438,6 +440,7 @@ class RunBundler:
 
         stream_bundle = await self._prepare_stream(name, {obj: self._describe_cache[obj]})
         compose_event = stream_bundle[1]
+        self._unreplayed_stream_names.add(name)
 
         def emit_event(readings: Optional[dict[str, Reading]] = None, *args, **kwargs):
             if readings is not None:
@@ -482,8 +485,12 @@ class RunBundler:
             self.emit_sync(DocumentNames.event, doc)
 
     def rewind(self):
+        # Only re-taken data points get their seq_nums back; events that are
+        # never replayed (interruptions, monitors) keep counting.
+        unreplayed = {k: v for k, v in self._sequence_counters.items() if k in self._unreplayed_stream_names}
         self._sequence_counters.clear()
         self._sequence_counters.update(self._sequence_counters_copy)
+        self._sequence_counters.update(unreplayed)
         # make sure we do not forget about streams we roll back to the
         # very beginning of
         for desc_key in self._descriptor_objs:
